@@ -130,8 +130,9 @@ def covers(m, edges, con, coverage):
 
 
 def min_walk_decomposition(nodes, edges, f, constraints=(), coverage=Fraction(1), kmax=None):
-    """least k such that k walks with positive integer weights explain f exactly and every subset constraint is covered
-    (to the given fraction) by one of the walks; returns (k, [(weight, vector)]) or None when there is none with k <= kmax"""
+    """least k such that k walks with integer weights >= 0 explain f exactly and every subset constraint is covered (to the given
+    fraction) by one of the walks - a walk of weight 0 explains nothing but may be what covers a constraint; returns
+    (k, [(weight, vector)]) or None when there is none with k <= kmax"""
     fv = tuple(int(f[e]) for e in edges)
     vecs = walk_vectors(nodes, edges, fv)          # weights >= 1  =>  multiplicity <= flow value
     cons = [list(map(tuple, c)) for c in constraints]
@@ -142,9 +143,34 @@ def min_walk_decomposition(nodes, edges, f, constraints=(), coverage=Fraction(1)
         kmax = sum(fv)
     memo = {}
 
+    masks = sorted({c for c in cov.values() if c}, key=lambda c: -bin(c).count("1"))
+    wit = {}
+    for m in vecs:
+        wit.setdefault(cov[m], m)
+    zmemo = {}
+
+    def zero_cover(need, k):
+        """fewest (<= k) walks of weight 0 whose constraint sets cover `need` (walks within the caps: multiplicity <= flow value)"""
+        if need == 0:
+            return []
+        if k == 0:
+            return None
+        key = (need, k)
+        if key in zmemo:
+            return zmemo[key]
+        low = need & -need
+        best = None
+        for c in masks:
+            if c & low:
+                sub = zero_cover(need & ~c, k - 1)
+                if sub is not None and (best is None or len(sub) + 1 < len(best)):
+                    best = [(0, wit[c])] + sub
+        zmemo[key] = best
+        return best
+
     def rec(r, k, covered):
         if not any(r):
-            return [] if covered == full else None
+            return zero_cover(full & ~covered, k)
         if k == 0:
             return None
         key = (r, k, covered)
